@@ -87,7 +87,7 @@ SymRef PtStore::lookupSymbol(char const * s, vec<PTRef> const & args, SymbolMatc
                 // The term might still be one of the special cases:
                 // left associative
                 // - requires that the left argument and the return value have the same sort
-                else if (t.left_assoc() && symstore[pta[args[0]].symb()].rsort() == t.rsort()) {
+                else if (t.left_assoc() && args.size() > 0 && symstore[pta[args[0]].symb()].rsort() == t.rsort()) {
                     int j = 1;
                     for (; j < args.size(); j++) {
                         SymRef argt = pta[args[j]].symb();
